@@ -47,7 +47,7 @@ def shrink(case):
     if case.get("engine") == "donsim":
         if case["evals"] > 1:
             yield dict(case, evals=1)
-        if len(case["fsets"][0]["ks"]) > 1:
+        if len(case["fsets"][0].get("ks") or []) > 1:
             yield dict(case, fsets=[dict(case["fsets"][0], ks=case["fsets"][0]["ks"][:1])])
         if case.get("udim", 1) > 1:
             yield dict(case, udim=1)
